@@ -353,6 +353,41 @@ var c15Pkgs = []string{"", "pa", "pb", "pa.pb", "pa.pc", "x.y.z"}
 type c15Profile struct {
 	allKinds, allMapKeys, collide, big bool
 	unpacked                           bool // some repeated scalars carry [packed = false]
+	longNames                          bool // field / JSON / message names of the boundary lengths c15NameLengths
+}
+
+// name-length classes: the lookup structures keep per-position / length bookkeeping (FieldNameMap.maxKeyLength)
+var c15NameLengths = []int{1, 63, 64, 65, 72, 128, 300}
+
+// identifier of exactly n bytes; style 0 field name (lower case, digits, some '_'), 1 message name (initial capital),
+// 2 explicit json_name (any printable ASCII except quote and backslash)
+func c15Ident(r *rng, n int, style int) string {
+	b := make([]byte, n)
+	for i := range b {
+		switch {
+		case style == 2:
+			for {
+				c := byte(32 + r.intn(95))
+				if c != '"' && c != '\\' {
+					b[i] = c
+					break
+				}
+			}
+		case i == 0 && style == 1:
+			b[i] = byte('A' + r.intn(26))
+		case i == 0:
+			b[i] = byte('a' + r.intn(26))
+		case style == 0 && i < n-1 && b[i-1] != '_' && r.chance(8):
+			b[i] = '_'
+		case r.chance(12):
+			b[i] = byte('0' + r.intn(10))
+		case style == 1 && r.chance(15):
+			b[i] = byte('A' + r.intn(26))
+		default:
+			b[i] = byte('a' + r.intn(26))
+		}
+	}
+	return string(b)
 }
 
 func genSchema(r *rng, prof c15Profile) *pSchema {
@@ -384,6 +419,12 @@ func genSchema(r *rng, prof c15Profile) *pSchema {
 			}
 			if try > 6 {
 				name = fmt.Sprintf("M%d", r.intn(1000))
+			}
+			if prof.longNames && forced == "" && r.chance(25) {
+				name = c15Ident(r, c15NameLengths[r.intn(len(c15NameLengths))], 1)
+				if strings.HasSuffix(name, "Entry") {
+					name += "x"
+				}
 			}
 			full = name
 			if parent != "" {
@@ -519,11 +560,18 @@ func genFields(r *rng, s *pSchema, f *pFile, m *p15Msg, used map[string]bool, pr
 			if try > 4 || prof.allKinds || prof.allMapKeys {
 				fl.name = fmt.Sprintf("%s_%d", c15FieldNames[r.intn(len(c15FieldNames))], r.intn(500))
 			}
-			fl.hasJSON = r.chance(20)
+			long := (prof.longNames && r.chance(45)) || r.chance(2)
+			if long && r.chance(70) {
+				fl.name = c15Ident(r, c15NameLengths[r.intn(len(c15NameLengths))], 0)
+			}
+			fl.hasJSON = r.chance(20) || (long && r.chance(50))
 			if fl.hasJSON {
 				fl.json = c15JSONNames[r.intn(len(c15JSONNames))]
 				if r.chance(20) {
 					fl.json = fl.name // explicit but equal to the field name
+				}
+				if long && r.chance(75) {
+					fl.json = c15Ident(r, c15NameLengths[r.intn(len(c15NameLengths))], 2)
 				}
 			} else {
 				fl.json = jsonDefault(fl.name)
@@ -718,6 +766,21 @@ func scenarioSchemas() []*pSchema {
 			&pField{num: 3, name: "ys", json: "YS", hasJSON: true, label: 1, kind: 17, packopt: 1})
 		msg(f, nil, "Pong", &pField{num: 1, name: "pings", json: "pings", label: 1, ref: "Ping"}, rf(2, "self", "Pong"))
 		f.svcs = []*pSvc{{name: "S1", methods: []*pMethod{{name: "A", in: "Ping", out: "Pong"}}}, {name: "S2", methods: []*pMethod{{name: "B", in: "Pong", out: "Ping"}}}}
+		out = append(out, &pSchema{files: []*pFile{f}})
+	}
+	// S5: name-length classes: field names, explicit JSON names and a message name of 1 / 63 / 64 / 65 / 72 / 128 / 300 bytes
+	{
+		f := mk("s5.proto", "len")
+		long := msg(f, nil, "M"+strings.Repeat("n", 64)) // 65-byte message name
+		req := msg(f, nil, "Req", rf(1, "m", long.name))
+		for i, n := range c15NameLengths {
+			name := strings.Repeat(string(rune('a'+i)), n)
+			req.fields = append(req.fields, sc(10+i, name, 5))
+			js := strings.Repeat(string(rune('A'+i)), n)
+			long.fields = append(long.fields, &pField{num: 1 + i, name: fmt.Sprintf("f%d", i), json: js, hasJSON: true, kind: 9})
+		}
+		long.fields = append(long.fields, sc(40, "q_"+strings.Repeat("w_", 40)+"z", 3)) // 83-byte name, 43-byte default JSON name
+		f.svcs = []*pSvc{{name: "S", methods: []*pMethod{{name: "M", in: "Req", out: long.name}}}}
 		out = append(out, &pSchema{files: []*pFile{f}})
 	}
 	return out
@@ -1117,7 +1180,7 @@ func genC15(r *rng, n int) {
 		c15FieldIDMap(r.fork())
 	}
 	schemas := scenarioSchemas()
-	profiles := []c15Profile{{allKinds: true}, {allKinds: true, unpacked: true}, {allMapKeys: true}, {collide: true}, {collide: true, big: true}, {big: true}}
+	profiles := []c15Profile{{allKinds: true}, {allKinds: true, unpacked: true}, {allMapKeys: true}, {collide: true}, {collide: true, big: true}, {big: true}, {longNames: true}, {longNames: true, collide: true}}
 	for i := 0; i < n; i++ {
 		var prof c15Profile
 		switch {
@@ -1134,6 +1197,9 @@ func genC15(r *rng, n int) {
 		}
 		if i >= len(profiles) && r.chance(12) {
 			prof.unpacked = true
+		}
+		if i >= len(profiles) && r.chance(15) {
+			prof.longNames = true
 		}
 		schemas = append(schemas, genSchema(r.fork(), prof))
 	}
